@@ -202,9 +202,18 @@ class Loop:
 LOOP = None
 
 
+def _finalize_asyncgen(agen):
+    # like asyncio's BaseEventLoop._asyncgen_finalizer_hook: an async generator that is dropped before it is exhausted
+    # is closed by a task of the loop, i.e. *later* than the statement that dropped it
+    if LOOP is not None:
+        LOOP.create_task(agen.aclose(), 'aclose')
+
+
 def new_loop(chooser=None, max_steps=400):
     global LOOP
+    import sys
     LOOP = Loop(chooser, max_steps)
+    sys.set_asyncgen_hooks(finalizer=_finalize_asyncgen)
     return LOOP
 
 
